@@ -57,6 +57,21 @@ value (thorough: all three; quick: one drawn from ctx.rng), plus "no caller laye
 syntax default is effective) and "planted syntax default alone".  empty-winner: the visible probes of all three sections
 with the EMPTY STRING in the winning caller layer above marker-carrying layers.
 
+FORM entries of the effect table (cfgeffect_util.MARKUP_FORM_EFFECTS / CSS_FORM_EFFECTS): the plain entries show every
+option on ONE abbreviation, so a consumer that sits on a path only another abbreviation feature reaches (the writer of the
+`!important` flag, the value list, the last declaration of the output, a nested / repeated / attribute carrying element)
+is never judged.  The string-valued options (stylesheet.after in the middle and at the very end of the output,
+stylesheet.between, output.newline, stylesheet.intUnit / floatUnit; output.selfClosingStyle, attributeQuotes, indent,
+newline, baseIndent) are repeated on every such form with the text the documentation states for the form; same layer
+stacks and values (the empty string always among them) as the plain entries.
+
+THE KEY-SHAPE TABLE (gen_key_shapes): the statement speaks of EVERY snippet and variable key, THE TABLE plants one
+all-lower-case probe key per section.  Keys in every letter-case pattern, with digits and with the separators the
+abbreviation syntax allows in a name, and re-cased names of built-in keys (KEY_SHAPES) x syntax names of the effect table x
+winning layer = each of the six layers; the key alone, or with its CASE SIBLINGS defined by the other layers under their
+own markers (markup; the stylesheet snippet search is case-insensitive by documentation, so no siblings there).  Judged on
+Config (whole dicts) and by the marker clause through expand() of the abbreviation that names the key as written.
+
 WHAT "UNKNOWN SYNTAX" MEANS (decided by running the real code, see report in known_findings.d/config.json):
 SYNTAX_CONFIG and the global config are ONE name space shared by type names and syntax names (same in upstream
 Emmet).  A name is *unknown* when it is neither listed in SYNTAXES nor a key of SYNTAX_CONFIG; for such names
@@ -446,7 +461,13 @@ def observe_expand(tb, case, ty, syn, expected, installed, patches, fails):
             _FLAT_CACHE.clear()
         _FLAT_CACHE[fk] = outcome(lambda: emmet.expand(abbr, copy.deepcopy(flat), {}))
     ref = _FLAT_CACHE[fk]
-    if out != ref:
+    # Both runs raise and the effective configuration holds a snippet / variable value that is no string (outside the
+    # documented value type; random stream only): WHICH of several invalid values is met first depends on the order of
+    # the merged dict's keys (the layered merge keeps the position of the least specific definition), so the error
+    # class says nothing about the effective values -- not judged.
+    undocumented = out[0] == 'exc' and ref[0] == 'exc' and out != ref and any(
+        not isinstance(v, str) for sec in ('snippets', 'variables') for v in flat[sec].values())
+    if out != ref and not undocumented:
         fails.append(('expand', 'expand(%r) with the layered configuration gives %r, with the flattened effective '
                       'configuration %r' % (abbr, out, ref)))
     # the winning layer's marker is what the output shows
